@@ -78,3 +78,44 @@ class C03(DimwiseCheck):
 
 
 CHECKS = {"C06": C06, "C03": C03}
+
+
+class C04(DimwiseCheck):
+    pid = "C04"
+    runs = {"quick": 1500, "thorough": 20000}
+    budget_s = {"quick": 80.0, "thorough": 800.0}
+    rule = ("schedule = strategy configuration + benefit answers (as C06); the integrand carries exactness probes as extra output "
+            "components (basis functions and a random combination of the initial (lmin,lmax) sparse-grid space; affine functions with the "
+            "modified basis) that never steer refinement; after every evaluation the probe components of the reported result and of the "
+            "combined interpolant at seeded points are compared with the analytic values. distinct_nontrivial counts distinct refined "
+            "structures on which exactness was checked")
+    expected_probes = ["rebalancing", "new_lmax"]
+
+    def gen(self, rk, tier, idx):
+        r = stream(rk, "cfg")
+        cfg = DS.gen_cfg(r, tier)
+        if r.random() < 0.15:
+            cfg["boundary"] = False
+            cfg["modified_basis"] = True
+        p = stream(rk, "probes")
+        if cfg["modified_basis"]:
+            probes = DS.linear_probes(p, cfg["dim"], 3)
+        else:
+            probes = DS.initial_space_probes(p, cfg, 4)
+        cfg["probes"] = probes
+        return {"config": cfg, "ops": []}
+
+    def monitors(self):
+        return [DS.ExactnessMonitor()]
+
+    def execute(self, sched, ctx):
+        cfg = sched["config"]
+        sim = DS.DimwiseSim(cfg, sched["rk"], ctx, self.monitors())
+        sim.build(probes=cfg["probes"])
+        try:
+            sim.perform(tol=-1.0, max_evaluations=None, stop_after=cfg["evals"])
+        except DS.StopRun:
+            pass
+
+
+CHECKS["C04"] = C04
